@@ -51,6 +51,10 @@ HTML_DOCS = {
     'lang': '<html><head><meta http-equiv="content-language" content="de-DE"></head><body><div id="a" lang="en"><p id="b" lang=""><i id="c">x</i></p>'
             '<p id="d" lang="en-US-x-twain"><b id="e"></b></p><p id="f" xml:lang="fr"></p></div><p id="g"></p>'
             '<iframe id="if"><html><head></head><body><p id="h"></p><div lang="zh-Hant-CN"><p id="k"></p></div></body></html></iframe></body></html>',
+    'langmeta': '<html><head><meta http-equiv="Content-Language" content="de"></head><body><p id="a">x</p><div id="b" lang="en"><i id="c"></i></div>'
+                '<iframe id="f1"><html><head><meta http-equiv="content-language" content="fr-CA"></head><body><p id="d">y</p><p id="e" lang="">z</p></body></html></iframe>'
+                '<iframe id="f2"><html><head><meta content="it" http-equiv="content-language"><meta http-equiv="content-language" content="es"></head><body><p id="g"></p></body></html></iframe>'
+                '<iframe id="f3"><p id="h">no head here</p></iframe></body></html>',
     'dir': '<html dir="rtl"><body><p id="a" dir="ltr">x</p><p id="b" dir="auto">אbc</p><p id="c" dir="auto">123</p><bdi id="d">א</bdi>'
            '<input id="e" type="tel"><input id="f" type="text" dir="auto" value="ا"><textarea id="g" dir="auto">abc</textarea><span id="h"><b id="i"></b></span>'
            '<p id="j" dir="bogus"><i id="k"></i></p><iframe id="fr"><html><body><p id="m"></p></body></html></iframe><svg><circle id="n"/></svg></body></html>',
@@ -74,6 +78,8 @@ XML_DOCS = {
               '<input type="radio" name="a" id="x2"/><input Type="radio" name="b" checked="" id="x3"/><input type="radio" name="b" id="x4"/>'
               '<input type="radio" Name="c" checked="" id="x5"/><input type="radio" name="c" id="x6"/><input type="radio" name="d" checked="" id="x7"/>'
               '<input type="radio" name="d" id="x8"/></form><input type="radio" name="d" id="x9"/></body></html>',
+    'xlang': '<?xml version="1.0"?><html xmlns="http://www.w3.org/1999/xhtml"><head><meta http-equiv="content-language" content="de-AT"/></head>'
+             '<body><p id="a">x</p><div id="b" lang="en"><i id="c"/></div><p id="d" xml:lang="fr"/><svg xmlns="http://www.w3.org/2000/svg" id="s" xml:lang="nl"><t id="t"/></svg></body></html>',
     'plain': '<?xml version="1.0"?><doc id="r"><Item id="a" Title="T"><item id="b">x<!--c--><![CDATA[y]]></item></Item><x-y id="c"/><item id="d" lang="en" xml:lang="de"/></doc>',
 }
 
@@ -175,7 +181,7 @@ SELECTORS = {
              ':is(:in-range, :out-of-range)', 'p:defined', ':root:dir(ltr)'],
     'lang': [':lang(en)', ':lang("")', ':lang("*")', ':lang(de)', ':lang("de-*")', ':lang("*-de")', ':lang(EN-us)', ':lang("en-*-twain")',
              ':lang("en-x")', ':lang("en-x-twain")', ':lang("en-US-x-twain")', ':lang(zh, fr)', ':lang("*-Hant")', ':lang("zh-CN")', ':not(:lang(en))',
-             ':lang(en-twain)', ':lang("*-x")', ':lang("*-*")'],
+             ':lang(en-twain)', ':lang("*-x")', ':lang("*-*")', ':lang(fr)', ':lang("fr-CA")', ':lang(it)', ':lang(es)', ':lang(nl)', ':lang("de-AT")'],
     'text': [':-soup-contains("aaa")', ':-soup-contains-own("aaa")', ':-soup-contains("bbb")', ':-soup-contains-own("bbb")', ':-soup-contains("ccc")',
              ':-soup-contains("ddd")', ':-soup-contains("eee")', ':-soup-contains("aaabbb")', ':-soup-contains-own("aaafff")', ':-soup-contains("ab")',
              ':-soup-contains-own("ab")', ':-soup-contains-own("aaa"):-soup-contains("bbb")', ':-soup-contains("bbb"):-soup-contains-own("aaa")',
